@@ -26,6 +26,7 @@ ANCHORS = [
 
 def run(chk):
     repo = chk.repo
+    cm.schema(chk, repo, "C04")
     d1_stencils(chk, repo)
     d2_thresholds(chk, repo)
     d3_linearity(chk, repo)
